@@ -60,6 +60,8 @@ impl DynamicChannelRegion for IN865Region {
                                 }
                             }
                             DR::_7 => DR::_7,
+                            // DR6 is RFU in this region: the table reads DR5 for DR4 + offset 7
+                            DR::_4 if rx1_dr_offset == 7 => DR::_5,
                             _ => u8::into(core::cmp::min(
                                 tx_dr as u8 + rx1_dr_offset - 5,
                                 DR::_7 as u8,
